@@ -472,14 +472,19 @@ pub fn reclaim(seed: u64, n: usize, out: &mut Out) {
         let mut max_len = 0usize;
         let mut active: Vec<(i64, usize)> = vec![]; // (written at, key id)
         let mut guaranteed = 0u64;
+        // the cleanup deadline as the harness expects it: (time of the last observed sweep) + interval,
+        // tracked independently of the store's own `next_cleanup` field
+        let mut exp_next: Option<i128> = sess.store.field("next");
         for i in 0..steps_n {
             let gap = rng.pick(&[0i64, 1000, 1_000_000, 10_000_000, 100_000_000, (life / 3) as i64, life as i64]);
             now += gap;
             // pre-state: is the coming write a guaranteed cleanup point?
+            let pre_next = sess.store.field("next");
+            let pre_ops = sess.store.field("ops");
             let g = match &cfg {
-                Cfg::Periodic { .. } => sess.store.field("next").map(|x| now as i128 >= x).unwrap_or(false),
+                Cfg::Periodic { .. } => exp_next.map(|x| now as i128 >= x).unwrap_or(false),
                 Cfg::Adaptive { .. } => {
-                    let next = sess.store.field("next").unwrap();
+                    let next = exp_next.unwrap();
                     let ops = sess.store.field("ops").unwrap();
                     let maxops = sess.store.field("maxops").unwrap();
                     now as i128 >= next || ops + 1 >= maxops
@@ -492,6 +497,20 @@ pub fn reclaim(seed: u64, n: usize, out: &mut Out) {
             let rq = Rq { key: format!("f{i}"), lim, q: 1, now };
             let st = call_emit(&mut sess, &rq, out);
             let wrote = st.trace.iter().any(|o| o.starts_with("setnx") || o.starts_with("cas"));
+            // did this write sweep?  periodic: next_cleanup moved; adaptive: the op counter was reset
+            match &cfg {
+                Cfg::Periodic { interval_ns, .. } => {
+                    if sess.store.field("next") != pre_next {
+                        exp_next = Some(now as i128 + *interval_ns as i128);
+                    }
+                }
+                Cfg::Adaptive { .. } => {
+                    if wrote && sess.store.field("ops") == Some(0) && pre_ops.map(|o| o + 1 != 0).unwrap_or(true) {
+                        exp_next = Some(now as i128 + sess.store.field("cur").unwrap_or(0));
+                    }
+                }
+                _ => {}
+            }
             steps.push(st);
             active.push((now, i));
             active.retain(|(w, _)| (*w as i128 + life) > now as i128);
